@@ -191,9 +191,9 @@ func c19SigningDone(w *c19World) {
 
 // ---------------------------------------------------------------- B ---
 
-func c19Proposal(tp *verifsim.Tape) (CoordinationProposal, string) {
+func c19Proposal(tp *verifsim.Tape, kind int) (CoordinationProposal, string) {
 	fee := func(l string) *big.Int { return new(big.Int).SetBytes(tp.Bytes(l, 1+tp.Choose(l+"-len", 8))) }
-	switch tp.Choose("proposal-kind", 6) {
+	switch kind {
 	case 0:
 		return &NoopProposal{}, "noop"
 	case 1:
@@ -257,7 +257,8 @@ func c19Coordination(w *c19World) {
 	coordinationBlock := uint64(900 * (1 + tp.Choose("coordination-window", 10)))
 	allowed := []WalletActionType{ActionNoop, ActionHeartbeat, ActionDepositSweep, ActionRedemption, ActionMovingFunds, ActionMovedFundsSweep}
 
-	proposal, pname := c19Proposal(tp)
+	kind := tp.Choose("proposal-kind", 6)
+	proposal, pname := c19Proposal(tp, kind)
 	sent := &coordinationMessage{
 		senderID:            group.MemberIndex(w.sender + 1),
 		coordinationBlock:   coordinationBlock,
@@ -312,6 +313,22 @@ func c19Coordination(w *c19World) {
 		return
 	}
 	h.Attack(sent.Type(), payload, 5+tp.Choose("co-attacks", 16))
+	if r.Failed() {
+		return
+	}
+	// a second valid message of the same action type with other contents (the
+	// next window): decoding it must not disturb the value decoded for the first
+	proposal, _ = c19Proposal(tp, kind)
+	coordinationBlock += 900
+	h.RoundTrip(&coordinationMessage{
+		senderID:            group.MemberIndex(w.sender + 1),
+		coordinationBlock:   coordinationBlock,
+		walletPublicKeyHash: bitcoin.PublicKeyHash(w.walletK),
+		proposal:            proposal,
+	})
+	if !r.Failed() {
+		h.Recheck("")
+	}
 }
 
 // ---------------------------------------------------------------- C ---
